@@ -1,7 +1,7 @@
 (* The DrawTarget state machine of draw_target.rs (after the repairs recorded in
    KNOWN_FINDINGS.json): clip stack, layer stack, transform, path cursor + rasteriser, and every
    public drawing call, down to the five span blitters of blitter.rs. *)
-Require Import RQ.Base RQ.F32 RQ.Rect RQ.Pixel RQ.Raster RQ.PathF RQ.Shader RQ.Surface.
+Require Import RQ.Base RQ.F32 RQ.Rect RQ.Pixel RQ.Raster RQ.PathF RQ.PathOps RQ.Shader RQ.Surface.
 
 Record clip := mk_clip { c_rect : rect; c_mask : option (list Z) }.
 Record layer := mk_layer { l_buf : list Z; l_opacity : f32; l_rect : rect; l_blend : mode }.
@@ -252,6 +252,8 @@ Inductive op :=
   | OpMask (s : source) (x y mw mh : Z) (data : list Z)
   | OpDrawImageAt (x y : f32) (im : image) (o : draw_options)
   | OpDrawImageSize (w h x y : f32) (im : image) (o : draw_options)
+  (* test-only composite op: fill(path.transform(ctm)) under the identity, ctm restored (C11) *)
+  | OpFillPre (p : path) (s : source) (o : draw_options)
   | OpSurface (k : cs_kind) (sw sh : Z) (sbuf : list Z) (sr : rect) (dx dy : Z).
 
 Definition step_op (st : dt) (o : op) : result dt :=
@@ -269,6 +271,10 @@ Definition step_op (st : dt) (o : op) : result dt :=
   | OpMask s x y mw mh data => mask_op st s x y mw mh data
   | OpDrawImageAt x y im o => draw_image_at st x y im o
   | OpDrawImageSize w h x y im o => draw_image_with_size_at st w h x y im o
+  | OpFillPre p s o =>
+      let ctm := d_ctm st in
+      do st' <- fill (with_ctm st xf_identity) (path_transform ctm p) s o;
+      Ok (with_ctm st' ctm)
   | OpSurface k sw sh sbuf sr dx dy =>
       do b <- surface_op k (d_w st) (d_h st) (d_buf st) sw sh sbuf sr dx dy; Ok (with_buf st b)
   end.
